@@ -371,12 +371,8 @@ func runC06(c *runCtx) {
 			}
 		}
 	}
-	family := func(n string) string {
-		if i := strings.Index(n, "{"); i > 0 {
-			return n[:i]
-		}
-		return n
-	}
+	family := serFamily
+	c06Names(c, sers)
 	for idx, x := range inputs {
 		t0, err := gosqlx.Parse(x)
 		if err != nil {
@@ -552,4 +548,126 @@ func rejectClass(err error) string {
 		return strings.ToLower(m[2])
 	}
 	return "other"
+}
+
+// name places and spellings: every place a name is written x the spellings a name can need quotes for. A place is the
+// call site that writes the name (column / qualified column go through Identifier.SQL, the others write their own).
+type c06Place struct{ kind, sql string }
+
+var c06Places = []c06Place{
+	{"column", "SELECT {N} FROM t"}, {"column", "SELECT a FROM t WHERE {N} = 1"}, {"column", "SELECT a FROM t ORDER BY {N} DESC"}, {"column", "SELECT a FROM t GROUP BY {N}"},
+	{"column", "SELECT SUM({N}) OVER (PARTITION BY {N}) FROM t"}, {"column", "SELECT CASE WHEN {N} = 1 THEN {N} END FROM t"}, {"column", "DELETE FROM t WHERE a = 1 RETURNING {N}"},
+	{"qualified-column", "SELECT u.{N} FROM users u"}, {"qualified-column", "SELECT a FROM t WHERE u.{N} = 1"}, {"qualified-column", "SELECT a FROM t JOIN u ON t.{N} = u.{N}"},
+	{"qualified-column", "SELECT COUNT(DISTINCT u.{N}), CAST(u.{N} AS INT) FROM t GROUP BY u.{N}"}, {"qualified-column", "UPDATE t SET a = 1 WHERE t.{N} = 2"},
+	{"qualified-column", "INSERT INTO t (a) SELECT u.{N} FROM u"}, {"qualified-column", "SELECT u.{N} IN (1, 2), u.{N} BETWEEN 1 AND 2 FROM t ORDER BY u.{N}"},
+	{"column-qualifier", "SELECT {N}.qty FROM t"}, {"column-qualifier", "SELECT a FROM t WHERE {N}.id = 1"}, {"column-qualifier", "SELECT {N}.* FROM t"},
+	{"column-alias", "SELECT a AS {N} FROM t"}, {"table", "SELECT a FROM {N}"}, {"table", "SELECT a FROM t JOIN {N} ON 1 = 1"}, {"table", "DELETE FROM {N} WHERE a = 1"},
+	{"table", "UPDATE {N} SET a = 1"}, {"table", "INSERT INTO {N} (a) VALUES (1)"}, {"table", "SELECT a FROM s.{N}"}, {"table-alias", "SELECT a FROM t AS {N}"}, {"table-alias", "SELECT a FROM t {N}"},
+	{"table-alias", "SELECT a FROM (SELECT b FROM u) {N}"}, {"insert-column", "INSERT INTO t ({N}, b) VALUES (1, 2)"}, {"cte-column-list", "WITH c ({N}) AS (SELECT 1) SELECT 2 FROM c"},
+	{"assignment-target", "UPDATE t SET {N} = 1"}, {"cte-name", "WITH {N} AS (SELECT 1) SELECT 2 FROM t"}, {"ddl-name", "CREATE TABLE {N} (a INT)"}, {"ddl-name", "DROP TABLE {N}"},
+	{"ddl-name", "CREATE VIEW {N} AS SELECT 1"}, {"ddl-column", "CREATE TABLE t ({N} INT, b TEXT)"}, {"ddl-name", "CREATE INDEX {N} ON t (a)"},
+}
+
+var c06Spellings = []struct{ class, name string }{
+	{"plain", `plain_name`}, {"quoted-plain", `"quoted_plain"`}, {"blank", `"first name"`}, {"dash", `"order-items"`}, {"dot", `"a.b"`}, {"upper-and-blank", `"Mixed Case"`},
+	{"digit-first", `"1st"`}, {"quote-inside", `"x""y"`}, {"non-ascii", `"naïve col"`}, {"punctuation", `"a;b"`}, {"blank", `"with  two blanks"`}, {"dash", `"x-1"`},
+}
+
+// identifierPlaces: the places whose name is written by Identifier.SQL (which quotes what it takes for unsafe); the other
+// places write the stored name as it is
+var c06IdentifierPlaces = map[string]bool{"column": true, "qualified-column": true, "column-qualifier": true, "assignment-target": true, "insert-column": true}
+
+func c06Names(c *runCtx, sers []serialiser) {
+	res := c.res
+	// the quoting rule itself: Lean's safeIdentifier (driver op qname; theorem quoted_name_reads_back) against
+	// Identifier.SQL on ASCII names over a hostile alphabet, and the read-back on the implementation: a name the
+	// serialiser quotes is one token whose value is the name
+	if drv := c.driver(); drv != nil {
+		r := c.rng.Fork()
+		alphabet := []byte("abzAZ09_*. -\"\"';\\\t/()")
+		for i := 0; i < c.n(2500, 40000); i++ {
+			n := 1 + r.Intn(7)
+			name := make([]byte, n)
+			for j := range name {
+				name[j] = alphabet[r.Intn(len(alphabet))]
+			}
+			real := (&ast.Identifier{Name: string(name)}).SQL()
+			ans, err := drv.Ask("qname", hex.EncodeToString(name))
+			if err != nil {
+				break
+			}
+			res.CorrCases++
+			res.count("qname|"+string(name), true)
+			if ans != hex.EncodeToString([]byte(real)) {
+				res.corrFail("safe-identifier-model", "Lean safeIdentifier differs from Identifier.SQL on this name", map[string]any{"name": string(name)}, map[string]any{"model_hex": ans, "real": real})
+				continue
+			}
+			if strings.HasPrefix(real, "\"") {
+				tk, _ := tokenizer.New()
+				toks, terr := tk.Tokenize([]byte(real))
+				if terr != nil || len(toks) != 2 || toks[0].Token.Value != string(name) {
+					got := fmt.Sprint(terr)
+					if terr == nil {
+						got = fmt.Sprintf("%d tokens, first %q", len(toks)-1, toks[0].Token.Value)
+					}
+					res.fail("quoted-name-not-read-back", "a name the serialiser writes between quotes is not read back as one token holding the name", map[string]any{"name": string(name), "written": real}, map[string]any{"got": got})
+				}
+			}
+		}
+	}
+	for _, pl := range c06Places {
+		for _, sp := range c06Spellings {
+			x := strings.ReplaceAll(pl.sql, "{N}", sp.name)
+			t0, err := gosqlx.Parse(x)
+			if err != nil {
+				res.stat("name-place-rejected:" + pl.kind)
+				continue
+			}
+			res.count("names|"+x, true)
+			d0 := normTree(t0)
+			site := pl.kind
+			if c06IdentifierPlaces[pl.kind] {
+				site += ":" + sp.class
+			} else if sp.class == "plain" || sp.class == "quoted-plain" {
+				site += ":" + sp.class
+			}
+			for _, s := range sers {
+				if strings.HasPrefix(s.name, "cli.") {
+					continue // the CLI formatter writes every name bare (recorded under its own keys)
+				}
+				var y string
+				if s.tree != nil {
+					y, _ = s.tree(t0)
+				} else {
+					y, _ = s.text(x)
+				}
+				ok := false
+				if t1, perr := gosqlx.Parse(y); perr == nil {
+					ok = normTree(t1) == d0
+					ast.ReleaseAST(t1)
+				}
+				if ok {
+					res.stat("name-kept:" + site)
+					if os.Getenv("VX_VERBOSE") != "" && s.name == "ast.SQL" && !c06IdentifierPlaces[pl.kind] && !strings.HasSuffix(site, "plain") {
+						fmt.Println("KEPT", x, "=>", y)
+					}
+					continue
+				}
+				wit := map[string]any{"sql": x, "serialiser": s.name, "place": pl.kind, "spelling": sp.class}
+				if sp.class != "plain" && !strings.Contains(y, sp.name) {
+					res.fail("name-written-bare:"+site, "a name that needs its quotes is written without them (or quoted together with its qualifier): the text is rejected or names something else", wit, map[string]any{"output": clip(y, 300)})
+				} else {
+					res.fail("name-place:"+serFamily(s.name)+":"+site, "the serialised text of a statement with this name is rejected or gives another tree", wit, map[string]any{"output": clip(y, 300)})
+				}
+			}
+			ast.ReleaseAST(t0)
+		}
+	}
+}
+
+func serFamily(n string) string {
+	if i := strings.Index(n, "{"); i > 0 {
+		return n[:i]
+	}
+	return n
 }
